@@ -158,6 +158,21 @@ CallLog ==
   /\ fin' = FALSE
   /\ UNCHANGED <<libvars, thrvars, wpc, wrec, lost, opt, written, reported>>
   /\ NoKF(12, KF12)
+(* qb_log() on the enabled target while it is NOT threaded: the caller writes it, inside the call (no hook point on
+   the way).  Explored only while nothing is left in the logging thread's hands, so that the order of writes stays the
+   order of the calls whatever happened to messages still queued when threaded mode was switched off. *)
+CallLogSync ==
+  /\ apc = "idle" /\ inited /\ tstate = "enabled" /\ ~threaded
+  /\ queue = <<>> /\ wrec = 0
+  /\ posted < NMsgs
+  /\ posted' = posted + 1 /\ apc' = "a_inlogger" /\ acall' = <<"Log", posted + 1>>
+  /\ fin' = FALSE
+  /\ UNCHANGED <<libvars, thrvars, wpc, wrec, lost, opt, written, reported>>
+(* ... the application thread is inside the target's logger, and returns *)
+A_Logger ==
+  /\ apc = "a_inlogger"
+  /\ written' = Append(written, acall[2]) /\ apc' = "idle" /\ acall' = NoCall
+  /\ UNCHANGED <<libvars, thrvars, wpc, wrec, posted, lost, opt, reported, fin>>
 P_Lock ==
   /\ apc = "p_lock" /\ lock = "free"
   /\ lock' = "A" /\ apc' = "p_locked"
@@ -236,8 +251,8 @@ CtlThreaded0 == /\ CallCtl(<<"SetThreaded", 0>>)
 CtlThreaded1 == /\ CallCtl(<<"SetThreaded", 1>>)
 CtlClose     == /\ CallCtl(<<"Close", 0>>)
 Ctl == CtlEnable0 \/ CtlEnable1 \/ CtlConf \/ CtlThreaded0 \/ CtlThreaded1 \/ CtlClose
-ACall == CallInit \/ CallStart \/ CallLog \/ CallFini \/ Ctl
-AStep == \/ C_Lock \/ C_Body \/ C_Unlock
+ACall == CallInit \/ CallStart \/ CallLog \/ CallLogSync \/ CallFini \/ Ctl
+AStep == \/ C_Lock \/ C_Body \/ C_Unlock \/ A_Logger
          \/ P_Lock \/ P_Account \/ P_Append \/ P_Drop \/ P_Unlock \/ P_UnlockD \/ P_Post
          \/ S_Lock \/ S_Set \/ S_Unlock \/ S_Post \/ S_Join
 ANext == ACall \/ AStep
@@ -285,9 +300,9 @@ Wk_Unlock ==
 
 WNext == Wk_SemWait \/ Wk_Lock \/ Wk_ExitTest \/ Wk_Exit \/ Wk_Dequeue \/ Wk_Write \/ Wk_Logger \/ Wk_Unlock
 
-Next == \/ CallInit \/ CallStart \/ CallLog \/ CallFini
+Next == \/ CallInit \/ CallStart \/ CallLog \/ CallLogSync \/ CallFini
         \/ CtlEnable0 \/ CtlEnable1 \/ CtlConf \/ CtlThreaded0 \/ CtlThreaded1 \/ CtlClose
-        \/ C_Lock \/ C_Body \/ C_Unlock
+        \/ C_Lock \/ C_Body \/ C_Unlock \/ A_Logger
         \/ P_Lock \/ P_Account \/ P_Append \/ P_Drop \/ P_Unlock \/ P_UnlockD \/ P_Post
         \/ S_Lock \/ S_Set \/ S_Unlock \/ S_Post \/ S_Join
         \/ Wk_SemWait \/ Wk_Lock \/ Wk_ExitTest \/ Wk_Exit \/ Wk_Dequeue \/ Wk_Write \/ Wk_Logger \/ Wk_Unlock
